@@ -75,6 +75,8 @@ pub fn lookup(name: &str) -> Option<(&'static str, ScenFn)> {
         "closedinj" => (crate::scen_conn::CLOSEDINJ_RULE, crate::scen_conn::closedinj as ScenFn),
         "offpath" => (crate::scen_conn::OFFPATH_RULE, crate::scen_conn::offpath as ScenFn),
         "progress" => (crate::scen_progress::PROGRESS_RULE, crate::scen_progress::progress as ScenFn),
+        "pathv" => (crate::scen_path::PATHV_RULE, crate::scen_path::pathv as ScenFn),
+        "term" => (crate::scen_term::TERM_RULE, crate::scen_term::term as ScenFn),
         _ => return None,
     })
 }
